@@ -276,7 +276,10 @@ def run_case(ctx, seed, idx):
             if sig_in.startswith('s'):
                 tv[0] = token
             no_reply = r.random() < 0.25
-            fields = {'path': path, 'member': member, 'sender': SENDER, 'destination': clientfix.UNIQUE}
+            sender = SENDER if r.random() < 0.85 else None         # peer-to-peer connections carry no sender
+            fields = {'path': path, 'member': member, 'destination': clientfix.UNIQUE}
+            if sender:
+                fields['sender'] = sender
             if iface is not None:
                 fields['interface'] = iface
             raw = RM.build(RM.METHOD_CALL, serial, fields, sig_in, tv, r.random() < 0.8,
@@ -299,7 +302,7 @@ def run_case(ctx, seed, idx):
                 plan[impl[0]] = outcome_for(random.Random('%s/%s/%s/%s' % (seed, idx, ci, impl[0])), sig_out, token)
             calls.append({'ci': ci, 'serial': serial, 'raw': raw, 'outs': outs, 'no_reply': no_reply, 'token': token,
                           'args': R.plain_list(sig_in, tv) if sig_in else [], 'holder': holder, 'plan': plan,
-                          'entry': None, 'exp': None, 'kind': kind, 'ambiguous': ambiguous, 'path': path, 'iface': iface, 'member': member,
+                          'entry': None, 'exp': None, 'kind': kind, 'ambiguous': ambiguous, 'sender': sender, 'path': path, 'iface': iface, 'member': member,
                           'sig': sig_in})
         # deliver the calls (possibly several in one read), then complete deferreds in a random order
         ctx.count('evaluations', len(calls))
@@ -373,9 +376,9 @@ def judge(ctx, d, calls, msgs, w, case):
             ctx.report('two-replies', 'call %d received %d replies' % (c['serial'], len(reps)), cw, case)
             continue
         for m in reps:
-            if m.fields.get('destination') != SENDER:
+            if m.fields.get('destination') != c['sender']:
                 ctx.report('reply-destination', 'reply to call %d is addressed to %r, caller is %r' % (
-                    c['serial'], m.fields.get('destination'), SENDER), cw, case)
+                    c['serial'], m.fields.get('destination'), c['sender']), cw, case)
         invoked = len(invs)
         if invoked > 1:
             ctx.report('invoked-twice', 'the implementation ran %d times for one call' % invoked, cw, case)
@@ -396,7 +399,7 @@ def judge(ctx, d, calls, msgs, w, case):
             if not R.plain_eq(args, c['args']):
                 ctx.report('wrong-arguments', 'implementation saw %r, call carried %r' % (repr(args)[:80],
                                                                                          repr(c['args'])[:80]), cw, case)
-            want_caller = SENDER if hit[0][1] else '<not asked>'
+            want_caller = c['sender'] if hit[0][1] else '<not asked>'
             if caller != want_caller:
                 ctx.report('caller-name', 'implementation got caller %r, expected %r' % (caller, want_caller), cw, case)
             if c['no_reply']:
